@@ -29,7 +29,7 @@ ASSUMPTIONS = [
     "energy scaled by (1+|H|), second moment/variance by (1+|H|)^2 plus 2e-5 (H^2 MPO truncated at 1e-5), state 5x the observable tolerance",
     "when the SLM mask ends strictly inside a step, the step may use the interaction matrix of its start or of its midpoint",
 ]
-REQUIRED = ["runs", "values_compared", "progress_invariants_checked", "mpo_checked", "nonidentity_permutations"]
+REQUIRED = ["runs", "values_compared", "progress_invariants_checked", "mpo_checked", "nonidentity_permutations", "bridge_runs"]
 SHARD_TIMEOUT = {"quick": 1700, "thorough": 5 * 3600}
 
 
@@ -48,6 +48,8 @@ def gen_cases(tier, seed):
             n, prec, dt, cap = int(rng.integers(3, 9)), float(10.0 ** float(rng.choice([-5, -6, -7]))), float(rng.choice([2, 4, 10])), 1024
         else:
             n, prec, dt, cap = int(rng.integers(4, 9)), 1e-5, float(rng.choice([2, 10])), int(rng.choice([1, 2, 3]))
+        if i % 12 == 5:
+            regime, basis, n, prec, dt, cap = "bridge", "ising", int(rng.integers(3, 6)), float(10.0 ** float(rng.choice([-5, -6]))), 10.0, 1024
         cases.append({"seed": int(rng.integers(1 << 30)), "n": n, "basis": basis, "regime": regime,
                       "local": bool(basis == "ising" and rng.random() < 0.45), "dmm": bool(basis == "ising" and rng.random() < 0.25),
                       "slm": bool(rng.random() < 0.2), "modulation": bool(rng.random() < 0.15),
@@ -58,6 +60,24 @@ def gen_cases(tier, seed):
 
 def build_run(case):
     rng = np.random.default_rng(case["seed"])
+    if case["regime"] == "bridge":
+        # driven atoms that interact across an idle atom of the chain (local addressing of every other atom, or an SLM mask on the atoms in between)
+        n = case["n"]
+        d = float(rng.uniform(4.5, 5.5))
+        T = int(rng.choice([200, 300, 400]))
+        amp = float(rng.uniform(3.0, 6.0))
+        spec = {"basis": "ising", "device": "mock", "atoms": [[f"q{i}", float(i * d), 0.0] for i in range(n)], "ops": []}
+        if rng.random() < 0.5:
+            spec["has_global"] = False
+            spec["locals"] = {f"l{i}": f"q{i}" for i in range(0, n, 2)}
+            for j, i in enumerate(range(0, n, 2)):
+                spec["ops"].append({"op": "pulse", "ch": f"l{i}", "amp": ["const", T, amp], "det": ["const", T, 0.0], "phase": 0.0, "protocol": "no-delay"})
+        else:
+            spec["has_global"] = True
+            spec["slm"] = [f"q{i}" for i in range(1, n, 2)]
+            spec["ops"].append({"op": "pulse", "ch": "g", "amp": ["const", T, amp], "det": ["const", T, 0.0], "phase": 0.0})
+        case.update(local=bool(spec.get("locals")), dmm=False, slm=bool(spec.get("slm")), modulation=False, init=False)
+        return rng, spec
     # moderate energy scales (U <= ~25 rad/us, Omega <= 6, |delta| <= 10) so that E*dt <= ~0.1 for dt <= 4 ns: TDVP's own
     # time-step error (it is a splitting integrator once interactions are not nearest-neighbour) stays far below the tolerances
     spec = seqgen.random_spec(rng, n=case["n"], basis=case["basis"], dmin=7.8 if case["basis"] == "ising" else 11.5, spread=0.6,
@@ -77,6 +97,7 @@ class ProgressMonitor:
         self.viol = []
         self.nonid = 0
         self.stride = stride
+        self.bonds = {}  # timestep index -> (bond dimensions, site permutation) as first seen when that step was reached
 
     def install(self):
         import emu_mps.mps_backend_impl as mpi
@@ -105,6 +126,7 @@ class ProgressMonitor:
         if fs[0].shape[0] != 1 or fs[-1].shape[2] != 1 or any(fs[i].shape[2] != fs[i + 1].shape[0] for i in range(len(fs) - 1)) or any(f.numel() == 0 for f in fs):
             self.viol.append(("mps-bond-chain-broken-after-progress", f"shapes {[tuple(f.shape) for f in fs]}"))
             return
+        self.bonds.setdefault(int(impl._timestep_index), ([int(f.shape[2]) for f in fs[:-1]], impl.qubit_permutation.numpy().copy()))
         if max(f.shape[2] for f in fs) > cap:
             self.viol.append(("bond-exceeds-max_bond_dim-after-progress", f"{[f.shape[2] for f in fs]} cap {cap}"))
         ce = tn.canonical_errors(st)
@@ -199,7 +221,7 @@ def run_case(case):
         # an entangled initial state, the long-range XY exchange or an SLM switch make the projection error dominate even at
         # precision 1e-10 (measured: 5e-3 on an XY run from a two-component initial state): only the loose bound is asserted
         regime = "default"
-    base_tol = {"exact2": nsteps * 2 * prec + 50 * prec + 1e-7, "high": 2e-4, "default": 2e-2, "capped": 1.0}[regime]
+    base_tol = {"exact2": nsteps * 2 * prec + 50 * prec + 1e-7, "high": 2e-4, "default": 2e-2, "bridge": 2e-2, "capped": 1.0}[regime]
     straddle = e2e.straddles_slm(snap)
     modes = ["mid", "start"] if straddle else ["mid"]
     best = None
@@ -215,7 +237,14 @@ def run_case(case):
         if not v:
             break
     v, w, c, states, hams = best
+    deficit = _bond_deficit(mon.bonds, states, n, prec) if v and not capped else None
+    cnt["bridge_runs"] = int(case["regime"] == "bridge")
     for key, msg in v[:3]:
+        if deficit and key.endswith("differs-from-exact-evolution"):
+            # mechanism: the MPS keeps fewer Schmidt components across a cut than the exact state has above 10x precision
+            viol.append({"key": "C02:differs-from-exact-evolution:entanglement-across-idle-atom-truncated" if case["regime"] == "bridge" else "C02:" + key + ":bond-dimension-below-exact-schmidt-rank",
+                         "msg": f"{fp} steps={nsteps}: {msg}; {deficit}", "detail": {"spec": spec}})
+            continue
         viol.append({"key": "C02:" + key + (":reordering-on" if case["reorder"] and mon.nonid else ""),
                      "msg": f"{fp} steps={nsteps}: {msg}", "detail": {"spec": spec}})
     worst.update(w)
@@ -234,6 +263,21 @@ def run_case(case):
     distinct_h = len({h.tobytes() for h in hams})
     nontrivial = bool(np.linalg.norm(states[-1] - states[0]) > 1e-3 and distinct_h >= 2 and (not case["reorder"] or mon.nonid > 0) and not capped)
     return {"fp": fp, "nontrivial": nontrivial, "violations": viol, "counters": cnt, "max": worst, "sample": sample if case["idx"] % 12 == 0 else None}
+
+
+def _bond_deficit(bonds, states, n, prec):
+    """first (step, cut) where the MPS bond is smaller than the number of exact Schmidt values above 10*precision, or None"""
+    for k in sorted(bonds):
+        if k >= len(states) or k == 0:
+            continue
+        b, perm = bonds[k]
+        psi = states[k].reshape([2] * n).transpose([int(x) for x in perm])
+        for c in range(n - 1):
+            sv = np.linalg.svd(psi.reshape(2 ** (c + 1), -1), compute_uv=False)
+            need = int((sv > 10 * prec).sum())
+            if b[c] < need:
+                return f"at step {k} the bond between sites {c}|{c + 1} is {b[c]} while the exact state has {need} Schmidt values above 10*precision (second largest {sv[1]:.2e})"
+    return None
 
 
 def _compare(results, snap, states, hams, base_tol, alt):
